@@ -282,6 +282,15 @@ pub mod e2 {
             "cuboid2_polyline" => { let he = d2::v(a); fpts(&Cuboid::new(he).to_polyline()) }
             "rcuboid2_polyline" => { let he = d2::v(a); let br = a.f(); let n = a.u() as u32;
                 fpts(&RoundShape { inner_shape: Cuboid::new(he), border_radius: br }.to_polyline(n)) }
+            // a round convex polygon AFTER scale_dyn, discretized: the offset points are built from the stored normals, so the
+            // vertices leave the boundary when `scaled` does not transform the normals properly
+            "rpolygon2_scaled_polyline" => { let k = a.u(); let pts: Vec<P2> = (0..k).map(|_| d2::p(a)).collect(); let br = a.f();
+                let sc = d2::v(a); let n = a.u() as u32;
+                let poly = ConvexPolygon::from_convex_hull(&pts).expect("convex hull");
+                let round = RoundShape { inner_shape: poly, border_radius: br };
+                match round.scale_dyn(&sc, n) { None => "none".into(), Some(r) => match r.as_typed_shape() {
+                    TypedShape::RoundConvexPolygon(rp) => { let mut s = fpts(&rp.to_polyline(n)); s.push(' '); s.push_str(&fpts(rp.inner_shape.points())); s }
+                    _ => "unknown-shape".into() } } }
             "rpolygon2_polyline" => { let k = a.u(); let pts: Vec<P2> = (0..k).map(|_| d2::p(a)).collect(); let br = a.f(); let n = a.u() as u32;
                 let poly = ConvexPolygon::from_convex_hull(&pts).expect("convex hull");
                 let mut s = fpts(&RoundShape { inner_shape: poly.clone(), border_radius: br }.to_polyline(n));
@@ -524,6 +533,7 @@ pub mod g {
                 v.push(("cuboid2_polyline".into(), d2::hv(&d2::Vector::new(ext(r, lat), ext(r, lat)))));
                 v.push(("rcuboid2_polyline".into(), format!("{} {} {}", d2::hv(&d2::Vector::new(ext(r, lat), ext(r, lat))), hx(ext(r, lat) * 0.25), 1 + r.below(6))));
                 v.push(("rpolygon2_polyline".into(), format!("{} {} {}", hull_pts2(r, lat), hx(ext(r, lat) * 0.25), 1 + r.below(6))));
+                v.push(("rpolygon2_scaled_polyline".into(), format!("{} {} {} {}", hull_pts2(r, lat), hx(ext(r, lat) * 0.25), d2::hv(&scale2(r, lat)), 1 + r.below(6))));
             }
         }
     }
